@@ -237,6 +237,7 @@ type mesh struct {
 	epochs   map[string][]uint64 // node -> epochs in order of first appearance
 	mu       sync.Mutex
 	scripted map[string]bool // names that are scripted peers (no real node)
+	recvd    map[string][][]byte // what each scripted peer has received (delivered messages)
 }
 
 func lk(x, y string) string {
@@ -389,6 +390,13 @@ func (m *mesh) deliverAt(k string, i int) {
 	d := s.take(i)
 	m.step++
 	if m.isSilent(s.from, s.to) || s.isClosed() {
+		return
+	}
+	if m.scripted[s.to] {
+		if m.recvd == nil {
+			m.recvd = map[string][][]byte{}
+		}
+		m.recvd[s.to] = append(m.recvd[s.to], d)
 		return
 	}
 	s.inject(d)
